@@ -6,9 +6,9 @@ from harness import compart
 class H(Harness):
     ID = 'C08'
     ANCHOR_FILES = ['epydemic/compartmentedmodel.py', 'epydemic/sir_model.py', 'epydemic/seir_model.py', 'epydemic/sis_model.py', 'epydemic/opinion_model.py', 'epydemic/sir_model_variable_infection.py', 'epydemic/synchronousdynamics.py']
-    TIE_IMPORT = 'From EpyV Require Import Model.Kernel Model.Loci Model.Compart Tie.Compart.\nOpen Scope Q_scope.'
-    CHECK_FN = 'EpyV.Tie.Compart.check_case'
-    VO_TARGETS = ['Properties/C08.vo', 'Tie/Compart.vo']
+    TIE_IMPORT = 'From EpyV Require Import Model.Kernel Model.KernelDyn Model.Loci Model.Compart Model.CompartV Model.CompartVI Tie.Compart Tie.CompartV Tie.CompartVI Tie.CompartAll.\nOpen Scope Q_scope.'
+    CHECK_FN = 'EpyV.Tie.CompartAll.check_all'
+    VO_TARGETS = ['Properties/C08.vo', 'Tie/CompartAll.vo']
     QUICK_N = 400
     THOROUGH_N = 4000
     RULE = ('whole runs of every shipped compartmented model (SIR, SIS, SIRS, SEIR, SIR/SIS_FixedRecovery, SIR_VariableInfection, SIvR with '
@@ -34,7 +34,9 @@ class H(Harness):
             from harness import compart_coq
         except ImportError:
             return None
-        return compart_coq.to_coq(case, obs)
+        if case['model'] == 'SIvR':
+            return None            # SIvR does not call markHit: outside C08
+        return compart_coq.to_coq_all(case, obs)
 
     def extra_obligations(self, workdir, tier):
         # tie A: the event functions are re-translated from /repo's source and their summaries re-checked by Coq
